@@ -1,0 +1,15 @@
+//go:build verif
+
+package vamana
+
+// VerifYield, when set by a verification harness, is called by greedySearch
+// before every node visit (outside of any cache mutex) so that a schedule of
+// concurrent searches can be forced deterministically. Only compiled with the
+// verif tag.
+var VerifYield func(point string)
+
+func verifYield(point string) {
+	if f := VerifYield; f != nil {
+		f(point)
+	}
+}
